@@ -385,7 +385,10 @@ class SimSocket:
         if self.conn is None:
             raise OSError(errno.ENOTCONN, "Transport endpoint is not connected")
         t = self.timeout
-        if t is not None and t == 0:
+        peek = bool(flags & _rs.MSG_PEEK)
+        if flags & ~(_rs.MSG_PEEK | _rs.MSG_DONTWAIT):
+            raise HarnessError(f"recv flags {flags:#x} are not simulated")
+        if (t is not None and t == 0) or flags & _rs.MSG_DONTWAIT:
             k.yield_point("call")
             if not k.wait(self._sim_readable, 0, "recv"):
                 raise BlockingIOError(errno.EAGAIN, "Resource temporarily unavailable")
@@ -411,6 +414,10 @@ class SimSocket:
                         n = cap
                         self.net.count("read_cap")
             data = bytes(self.rx[:n])
+            if peek:
+                # MSG_PEEK: the bytes stay in the receive queue
+                k.ev("recv_peek", self.fd, data)
+                return data
             del self.rx[:n]
             self.consumed += n
             k.ev("recv", self.fd, data)
@@ -423,6 +430,12 @@ class SimSocket:
             raise ConnectionResetError(errno.ECONNRESET, "Connection reset by peer")
         k.ev("recv_eof", self.fd)
         return b""
+
+    def recv_into(self, buffer, nbytes=0, flags=0):
+        view = memoryview(buffer).cast("B")
+        data = self.recv(nbytes or len(view), flags)
+        view[:len(data)] = data
+        return len(data)
 
     def send(self, data, flags=0):
         k = self.k
